@@ -204,3 +204,16 @@ func (lt *LocalTrace) Snapshot() []types.MalType {
 	defer lt.mu.Unlock()
 	return append([]types.MalType(nil), lt.Items...)
 }
+
+// EvalTextWithin evaluates src under context.Background() and gives up waiting after d (the evaluation itself cannot
+// be stopped: the goroutine is left behind). ok is false when it did not return in time.
+func (w *World) EvalTextWithin(src string, d time.Duration) (o Outcome, ok bool) {
+	ch := make(chan Outcome, 1)
+	go func() { ch <- w.EvalText(context.Background(), src) }()
+	select {
+	case o = <-ch:
+		return o, true
+	case <-time.After(d):
+		return Outcome{Err: fmt.Errorf("harness: no answer within %v", d)}, false
+	}
+}
